@@ -138,10 +138,13 @@ package ast
 
 // an insert that names no reserve of the layout is an error; nothing else is
 //@ func (p *Program) checkUndefinedInsert
-//@   call New#0: assert error-names-the-insert-and-its-file: arg0 == inserts[name__0].Token.Pos.EndLine + 1 && arg1 == inserts[name__0].FilePath
+//@   call New#0: assert error-names-the-insert-and-its-file: arg0 == inserts[name__1].Token.Pos.EndLine + 1 && arg1 == inserts[name__1].FilePath
 //@   ensures result == nil <==> forallkey(inserts, k, has(p.Reserves, k))
 //@   modifies nothing
-//@   loop 0: invariant forallkey(inserts, k, visited(k) ==> has(p.Reserves, k))
+//@   loop 0: invariant fresh(names) && len(names) >= 0 && forall(j, 0, len(names), has(inserts, names[j]))
+//@   loop 0: invariant forallkey(inserts, k, visited(k) ==> exists(j, 0, len(names), names[j] == k))
+//@   loop 0: deterministic-by-contract
+//@   loop 1: invariant forall(j, 0, rangeindex+1, has(p.Reserves, names[j]))
 
 // every reserve of the layout receives the page's insert of its own name, or keeps what it
 // had; nothing else is written (whole-view postcondition over all reserves)
